@@ -567,3 +567,14 @@ end Agd.Record
 #print axioms Agd.Tie.TrC15.fcProfileToInternal_tr
 #print axioms Agd.Tie.TrC15.bpProfileToInternal_switches
 #print axioms Agd.Tie.TrC15.bpProfileToInternal_tr
+#print axioms Agd.Tie.TrC15.httpsScan
+#print axioms Agd.Tie.TrC15.scanSt_find
+#print axioms Agd.Tie.TrC15.ipFromHTTPSRR_first_scan
+#print axioms Agd.Tie.TrC15.ipFromHTTPSRR_first
+#print axioms Agd.Tie.TrC15.answerScan
+#print axioms Agd.Tie.TrC15.ipFromAnswer_first
+#print axioms Agd.Tie.TrC15.convOut_kind
+#print axioms Agd.Tie.TrC15.scanSt_model
+#print axioms Agd.Tie.TrC15.ipFromHTTPSRR_tr
+#print axioms Agd.Tie.TrC15.ipFromAnswer_tr
+#print axioms Agd.Tie.TrC15.faithfulEx
